@@ -55,6 +55,8 @@ theorem skel_handleOutChans_shape :
 /-- `makeOutChan`: the sink callback (close ↦ `close(incoming)`; value ↦ unmarshal, discard if the context is cancelled, else send into `incoming` or discard on cancel) and the buffer goroutine (select over context, `incoming`, and the send of the list head; closes the caller channel on cancel or when `incoming` is closed and the list is empty). -/
 theorem skel_makeOutChan_shape :
     Generated.skel_makeOutChan = [
+  "if ctx == nil",
+  "  ctx = context.Background()",
   "retVal := reflect.Zero(ftyp.Out(valOut))",
   "// retVal is written by the frame executor (chCtor) and read by the calling goroutine, which may // have been woken by closeInFlight rather than by the executor var retLk sync.Mutex",
   "chCtor := func{…}",
